@@ -532,8 +532,9 @@ def run(ctx):
     if ctx.thorough:
         cfg = os.path.join(ctx.work, "lineage_deep.cfg")
         gen_cfg(cfg, {**base, "MaxDefs": 2, "MaxFrom": 1, "MaxProj": 1, "MaxRefs": 1, "Sample": "FALSE"}, props + "ACTION_CONSTRAINT Emit\n")
-        res = tlc.run("Lineage", cfg, ctx.work, workers=16, timeout_s=1800, allow_violation=False)
-        ctx.model(res, "Lineage", cfg, "exhaustive: two definitions (view over view/table), 1 FROM entry, 1 item")
+        gen_cfg(cfg, {**base, "MaxDefs": 2, "MaxFrom": 1, "MaxProj": 1, "MaxRefs": 1, "Sample": "FALSE"}, props + "INVARIANT MemoAgrees\nACTION_CONSTRAINT Emit\n")
+        res = tlc.run("LineageWalk", cfg, ctx.work, workers=16, timeout_s=1800, allow_violation=False)
+        ctx.model(res, "LineageWalk", cfg, "exhaustive: two definitions (view over view/table), 1 FROM entry, 1 item; incl. MemoAgrees")
         deep = list(res.printed)
     else:
         deep = []
@@ -544,7 +545,13 @@ def run(ctx):
         r = tlc.run("Lineage", cfg, ctx.work, workers=8, timeout_s=600)
         if "GraphAgrees" not in r.violated:
             raise MachineryError(f"negative control {variant}: GraphAgrees was not violated")
-    ctx.notes["negative_controls"] = "GraphAgrees violated under union_by_name, star_first_only, sub_ignored"
+    for variant in ("key_without_scope", "key_without_column"):
+        cfg = os.path.join(ctx.work, f"lineage_neg_{variant}.cfg")
+        gen_cfg(cfg, {"Variant": f'"{variant}"', "MaxDefs": 4, "MaxFrom": 2, "MaxProj": 3, "MaxRefs": 2, "Sample": "TRUE"}, "SPECIFICATION Spec\nINVARIANT MemoAgrees\nCHECK_DEADLOCK FALSE\n")
+        r = tlc.run("LineageWalk", cfg, ctx.work, workers=4, timeout_s=600, simulate="num=3000", depth=24, seed=5)
+        if "MemoAgrees" not in r.violated:
+            raise MachineryError(f"negative control {variant}: MemoAgrees was not violated")
+    ctx.notes["negative_controls"] = "GraphAgrees violated under union_by_name, star_first_only, sub_ignored; MemoAgrees (LineageWalk) violated under key_without_scope, key_without_column"
     # the one-definition space: a hash slice in quick, everything in thorough
     # fixed universe: an eighth of the one-definition DAGs (hash % 8 == 0); thorough runs all of it, quick a fifteenth of it chosen by the seed
     for p in wide:
@@ -561,13 +568,13 @@ def run(ctx):
             dags.setdefault(k, d)
     # simulated derivations of the large bound
     cfg = os.path.join(ctx.work, "lineage_sim.cfg")
-    gen_cfg(cfg, {**base, "MaxDefs": 4, "MaxFrom": 2, "MaxProj": 3, "MaxRefs": 2, "Sample": "TRUE"}, "SPECIFICATION Spec\nINVARIANT GraphAgrees\nINVARIANT LeavesAreBase\nINVARIANT NamesDistinct\nINVARIANT UnionPositional\nACTION_CONSTRAINT Emit\nCHECK_DEADLOCK FALSE\n")
+    gen_cfg(cfg, {**base, "MaxDefs": 4, "MaxFrom": 2, "MaxProj": 3, "MaxRefs": 2, "Sample": "TRUE"}, "SPECIFICATION Spec\nINVARIANT GraphAgrees\nINVARIANT LeavesAreBase\nINVARIANT NamesDistinct\nINVARIANT UnionPositional\nINVARIANT MemoAgrees\nACTION_CONSTRAINT Emit\nCHECK_DEADLOCK FALSE\n")
     # eight fixed simulation seeds, one worker each (deterministic); thorough runs all, quick a prefix of the one chosen by the seed
     n0 = len(dags)
     for r in (range(8) if ctx.thorough else [ctx.seed % 8]):
         num = 2500 if ctx.thorough else 700
-        res = tlc.run("Lineage", cfg, ctx.work, workers=1, timeout_s=1800, simulate=f"num={num}", depth=24, seed=1001 + r, allow_violation=False)
-        ctx.model(res, "Lineage", cfg, f"simulation (seed {1001 + r}): {num} derivations of up to 4 definitions; same invariants on every visited state")
+        res = tlc.run("LineageWalk", cfg, ctx.work, workers=1, timeout_s=1800, simulate=f"num={num}", depth=24, seed=1001 + r, allow_violation=False)
+        ctx.model(res, "LineageWalk", cfg, f"simulation (seed {1001 + r}): {num} derivations of up to 4 definitions; the four invariants plus MemoAgrees (memoised to_node graph = Out) on every visited state")
         for p in res.printed:
             d = prune(p["defs"])
             if len(d) > 1 or uses(d)["union"]:
